@@ -80,7 +80,9 @@ def arr(x):
 
 
 class PC:
-    """identity cell for the property-cache dict"""
+    """identity cell for the _property_cache dict; ``shared`` once a proxy() was made on it (the dict keeps
+    whatever the other key-holder stored even after that one left, so the mark stays with the dict)"""
+    shared = False
 
 
 class Run:
@@ -119,9 +121,7 @@ class Run:
 
     def proxied(self, name):
         pc = self.pc.get(name)
-        if pc is None:
-            return False
-        return any(n != name and self.pc[n] is pc for n in self.names())
+        return bool(pc is not None and pc.shared)
 
     # ------------------------------------------------------ trigger predicates
     def vol_entry(self, sm, create=False):
@@ -654,27 +654,24 @@ class Run:
             return self.op_P(step)
         xp = sm.ix.pkg != om.ix.pkg
         region = f'kind={sm.kind}{om.kind},xpkg={int(xp)}'
-        expand = False
+        new_labels = []          # labels that MaterialIndexer._expand_phases will add in place
         if sm.kind == 'M' and om.kind == 'S':
             q = om.ix.ph.label
             if q not in sm.labels() and twin(q) not in sm.labels():
-                ctx.cell('avoided:copy_like-new-phase(C13)'); return self.op_T(step)
+                new_labels = [q]
         elif sm.kind == 'M' and om.kind == 'M':
             P1, P2 = sm.labels(), om.labels()
             compat = ''.join(x.lower() for x in P1) == ''.join(x.lower() for x in P2)
             if P1 != P2 and not compat:
-                if set(P1) < set(P2):
-                    expand = True
-                    if 'F2' in self.avoid and (sm.ix.cache.mass or sm.ix.cache.vol):
-                        ctx.cell('avoided:copy_like-expands-phases-with-cached-views'); return self.op_T(step)
-                else:
-                    ctx.cell('avoided:copy_like-positional-rows(C13)'); return self.op_T(step)
+                new_labels = [q for q in P2 if q not in P1]
         elif sm.kind == 'S' and om.kind == 'M':
-            if len(om.labels()) == 1 and xp:
-                ctx.cell('avoided:copy_like-single-phase-multistream-xpkg(C13)'); return self.op_T(step)
             q = sm.ix.ph.label
-            if len(om.labels()) >= 2 and q not in om.labels() and twin(q) not in om.labels():
-                ctx.cell('avoided:copy_like-label-not-in-source-phases(C12/C13)'); return self.op_T(step)
+            if len(om.labels()) >= 2 and sm.rows()[0].any() and q not in om.labels() and twin(q) not in om.labels():
+                # Stream.copy_like first converts the *current* contents to the source's phases (C13's subject)
+                ctx.cell('avoided:copy_like-current-label-not-in-source-phases(C13)'); return self.op_T(step)
+        expand = bool(new_labels)
+        if expand and 'F2' in self.avoid and (sm.ix.cache.mass or sm.ix.cache.vol):
+            ctx.cell('avoided:copy_like-expands-phases-with-cached-views'); return self.op_T(step)
         ctx.call('op.copy_like', real.copy_like, oreal, region=region + f',expand={int(expand)}')
         ctx.cell('op:copy_like'); ctx.cell(f'copy_like:{sm.kind}{om.kind}')
         if sm.kind == 'S' and om.kind == 'M' and len(om.labels()) >= 2:
@@ -685,7 +682,7 @@ class Run:
             if c.mass: c.dirty.add('expand-mass')
             for k in c.vol: c.dirty.add(('expand-vol', k))
             old = dict(zip(sm.labels(), sm.rows()))
-            sm.ix.phases = list(om.labels())
+            sm.ix.phases = M.sort_phases(sm.labels() + new_labels)
             sm.ix.data.rows = [old.get(q, np.zeros(sm.pk.n)) for q in sm.ix.phases]
             ctx.cell('copy_like:expand')
         self.resync(name, real, sm)
@@ -725,6 +722,7 @@ class Run:
             r = ctx.call('op.proxy', real.proxy, region=f'born={sm.born}')
             m = M.SM(new, sm.ix, sm.tc, sm.born)
             self.pc[new] = self.pc[name]
+            self.pc[name].shared = True
         else:
             r = ctx.call('op.flow_proxy', real.flow_proxy, region=f'kind={sm.kind}')
             ix = M.Ix(sm.ix.pkg, sm.kind, sm.ix.phases, sm.ix.data, M.PhCell(sm.ix.ph.label) if sm.kind == 'S' else None)
